@@ -107,13 +107,35 @@ class Run:
             k = len(run.ticks)
             run.ticks.append((fn, run.clock.now))
             run.clock.now += run.durs[k % len(run.durs)]
+            # transceivers attach / detach their clock links in place while the generator runs (power on / off)
+            for op in run.link_ops.get(k, ()):
+                run.apply_link_op(op)
+            run.link_snap.append([l.idx for l in run.links])
         gen.clck_handler = handler
+
+    link_ops = {}
+    links = ()
+    link_snap = ()
+
+    def apply_link_op(self, op):
+        links, kind, i = self.links, op[0], op[1]
+        if kind == "add":
+            links.append(self.new_link())
+        elif kind == "insert":
+            links.insert(i % (len(links) + 1), self.new_link())
+        elif kind == "remove" and links:
+            del links[i % len(links)]
+        elif kind == "replace" and links:
+            links[i % len(links)] = self.new_link()
+        elif kind == "swap" and links:              # one detached, another attached: the usual power off / power on pair
+            del links[i % len(links)]
+            links.append(self.new_link())
 
 
 class Link:
     def __init__(self, run_ref, idx):
         self.run_ref = run_ref
-        self.idx = idx
+        self.idx = idx              # unique per object: a detached link must not be served any more
 
     def send(self, payload):
         r = self.run_ref[0]
@@ -135,14 +157,23 @@ def case_st(draw):
             "cycles": draw(st.lists(st.one_of(st.integers(1, 40), st.integers(1, 400)), min_size=1, max_size=3)),
             "durs": durs, "t0": draw(st.sampled_from([0, 1, 123456789012, 2 ** 53 + 1, 2 ** 62])),
             # links attached / detached between stop() and the next start()
-            "link_changes": draw(st.lists(st.integers(0, 3), max_size=3))}
+            "link_changes": draw(st.lists(st.integers(0, 3), max_size=3)),
+            # in-place changes of the link list: [cycle, tick (-1 = before start()), kind, index]
+            "link_ops": draw(st.lists(st.tuples(st.integers(0, 2), st.one_of(st.just(-1), st.integers(0, 40), st.integers(0, 400)),
+                                                st.sampled_from(["add", "insert", "remove", "replace", "swap", "swap", "replace"]),
+                                                st.integers(0, 3)).map(list), max_size=6))}
 
 
 def oracle(case):
     if not all(hasattr(clck_gen, a) for a in ("time", "threading")):
         raise HarnessError("clck_gen no longer imports time/threading as modules")
     run_ref = [None]
-    links = [Link(run_ref, i) for i in range(case["links"])]
+    serial = [0]
+
+    def new_link():
+        serial[0] += 1
+        return Link(run_ref, serial[0])
+    links = [new_link() for i in range(case["links"])]
     gen = clck_gen.CLCKGen(links, clck_start=case["start"], ind_period=case["period"])
     overrun_then_regular = wrap = False
     n_inds = 0
@@ -151,9 +182,17 @@ def oracle(case):
         if cyc > 0 and cyc - 1 < len(case.get("link_changes", [])):
             n_links = case["link_changes"][cyc - 1]
             del links[:]
-            links.extend(Link(run_ref, i) for i in range(n_links))
+            links.extend(new_link() for i in range(n_links))
         r = Run(case, cyc)
         run_ref[0] = r
+        r.links, r.new_link, r.link_ops = links, new_link, {}
+        for (c_, k_, kind, i_) in case.get("link_ops", []):
+            if c_ == cyc:
+                if k_ < 0:
+                    r.apply_link_op((kind, i_))
+                else:
+                    r.link_ops.setdefault(k_, []).append((kind, i_))
+        r.link_snap = [[l.idx for l in links]]
         r.install(gen)
         t0 = r.clock.now
         gen.start()
@@ -202,7 +241,7 @@ def oracle(case):
         exp_inds = []
         for k, (fn, t) in enumerate(r.ticks):
             if fn % case["period"] == 0:
-                for li in range(n_links):
+                for li in r.link_snap[k]:
                     exp_inds.append((t, li, "IND CLOCK %d\0" % fn, k))
         got = [(t, li, p if isinstance(p, str) else p.decode("ascii", "replace"), k) for (t, li, p, k) in r.inds]
         if sorted(got) != sorted(exp_inds):
@@ -221,6 +260,8 @@ def oracle(case):
         cl.append("no-overrun-run")
     if len(case["cycles"]) > 1:
         cl.append("restart")
+    if any(c_ < len(case["cycles"]) and k_ < case["cycles"][c_] for (c_, k_, _, _) in case.get("link_ops", [])):
+        cl.append("link-list-changed-in-place")
     return (cl, overrun_then_regular or wrap or n_inds >= 2, None)
 
 
